@@ -29,8 +29,9 @@ Reqs == { r \in [m : Methods, ver : {10, 11}, copt : {"none", "close", "ka"}, bo
 Ups == { u \in [st : {200, 201, 204, 304, 404, 500, 503, 299}, fr : {"cl", "chunked", "eof"}, tr : BOOLEAN, gz : BOOLEAN,
                 sse : BOOLEAN, sz : 1..3, hop : BOOLEAN, cookies : BOOLEAN, ver : {10, 11},
                 early : BOOLEAN,       \* the origin answers and hangs up without reading the request body
-                ev : {"lf", "crlf", "cr", "comment"}] :   \* event streams: line ending of the events; "comment" = the first thing
-                                                           \* sent is a comment line (a heartbeat) in a chunk of its own, no blank line
+                ev : {"lf", "crlf", "cr", "comment", "param"}] :   \* event streams: line ending of the events; "comment" = the first thing
+                                                           \* sent is a comment line (a heartbeat) in a chunk of its own, no blank line;
+                                                           \* "param" = LF events, media type with a parameter (text/event-stream; charset=utf-8)
             /\ (u.ev # "lf" => u.sse) /\ (u.ev = "comment" => u.fr = "chunked")
             \* (an early reply that is delimited by the origin hanging up, while the upload may still be under way, is a
             \*  fault scenario - C12 - with more than one acceptable outcome: early replies are self-delimiting and the
@@ -111,7 +112,12 @@ ExactlyOnce           == ~closing => (nRead = nWrote + inflight /\ inflight = (I
 
 (* ---------------- generator: sequences of exchanges with the expected wire ---------------- *)
 Exch == Reqs \X Ups
-GenSeqs == RandomSubset(SeqSample, [1..MaxEx -> Exch])
+\* a random subset hardly ever meets a particular kind of stream: every event-stream shape (line ending / comment /
+\* media type parameter x framing x origin version) is always run on its own, asked for by a plain GET of either version
+PlainGet(v) == [m |-> "GET", ver |-> v, copt |-> "none", body |-> "none", sz |-> 1, ae |-> "absent", slow |-> FALSE, refused |-> FALSE]
+StreamBase == { <<PlainGet(v), u>> : v \in {10, 11},
+                u \in {x \in Ups : x.sse /\ x.st = 200 /\ x.sz = 2 /\ ~x.gz /\ ~x.tr /\ ~x.hop /\ ~x.cookies /\ ~x.early} }
+GenSeqs == RandomSubset(SeqSample, [1..MaxEx -> Exch]) \cup { [i \in 1..1 |-> e] : e \in StreamBase }
 \* an exchange happens only if every earlier one left the connection open
 Expected(s) == [i \in 1..Len(s) |-> Wire(s[i][1], s[i][2], FALSE)]
 GInit == /\ \E s \in GenSeqs :
